@@ -7,8 +7,11 @@
      - `balance`/`balbak` diagonal similarity scaling by powers of the radix and its back-transformation
      - `hqr2`, branch `l == nn - 1`: the closed formulas for the two eigenvalues of a 2x2 block, and
        with it the whole eigenvalue part of `hqr2` for a 2x2 matrix.
-   `tred2`, `tql2`'s QL sweeps, `elmhes`, `eltran` and `hqr2`'s QR sweeps / back-substitution are NOT
-   modelled; for them the property is decided per run by the verified validators of Validator.v.
+   The reductions and the QL iteration are modelled in their own files, with arrays as functions on
+   indices (FunMat.v): `tred2` in ModelTred2.v, the QL sweeps of `tql2` in ModelTql2.v (composed with
+   tred2 and the sort below into evd(true) in ModelSymEvd.v), `elmhes` / `eltran` in ModelHess.v.
+   `hqr2`'s QR sweeps / back-substitution are NOT modelled; for the general clause the property is
+   decided per run by the verified validator of Validator.v.
 
    Conventions: arrays are lists, `upd` is assignment (the loops below only assign inside the
    bounds, see ProofsSort.v); for the two reorderings V is the list of its COLUMNS (DenseMatrix is
